@@ -49,6 +49,12 @@ pub mod c18 {
         let model: Vec<u8> = c.values.iter().map(|v| v & mask).collect();
         let cl = be.clone();
         let sd = serde_copy("BitEnc", &be)?;
+        // a recycled target of another width holding other data
+        let mut cf = BitEnc::new(1 + (w + 2) % 8);
+        for i in 0..(c.later.len() * 7 + 3) {
+            cf.push(i as u8);
+        }
+        cf.clone_from(&be);
         for (&(f, v), k) in c.later.iter().zip(0..) {
             if k % 2 == 0 || model.is_empty() {
                 be.push(v);
@@ -56,7 +62,7 @@ pub mod c18 {
                 be.set(gen::idx(f, model.len() - 1), v);
             }
         }
-        for (name, copy) in [("clone()", &cl), ("serde round trip", &sd)] {
+        for (name, copy) in [("clone()", &cl), ("serde round trip", &sd), ("clone_from() into an object built with another configuration", &cf)] {
             let got: Vec<u8> = copy.iter().take(model.len() + 2).collect();
             ensure!(got == model && copy.len() == model.len() && copy.nr_symbols() == model.len(), "BitEnc(width {}) holding {:?}: its {} taken before {} later push/set calls on the original iterates {:?} (len {})", w, model, name, c.later.len(), got, copy.len());
             for i in 0..model.len() {
@@ -80,6 +86,9 @@ pub mod c18 {
         }
         let cl = si.clone();
         let sd = serde_copy("SmallInts<u8,u64>", &si)?;
+        let mut cf: SmallInts<u8, u64> = SmallInts::from_elem(9, c.later.len() + 2);
+        cf.push(100_000);
+        cf.clone_from(&si);
         for &(f, v) in &c.later {
             if c.ints.is_empty() {
                 si.push(v as u64 * 3);
@@ -87,7 +96,7 @@ pub mod c18 {
                 si.set(gen::idx(f, c.ints.len() - 1), v as u64 * 300);
             }
         }
-        for (name, copy) in [("clone()", &cl), ("serde round trip", &sd)] {
+        for (name, copy) in [("clone()", &cl), ("serde round trip", &sd), ("clone_from() into an object built with another configuration", &cf)] {
             let got: Vec<u64> = copy.iter().take(c.ints.len() + 2).collect();
             ensure!(got == c.ints && copy.len() == c.ints.len() && copy.decompress() == c.ints, "SmallInts<u8,u64> holding {:?}: its {} taken before later changes of the original iterates {:?}, decompress() = {:?}", c.ints, name, got, copy.decompress());
             for i in 0..c.ints.len() {
@@ -118,13 +127,17 @@ pub mod c18 {
         let (s0, m0): (Vec<i64>, Vec<(u32, u32)>) = ((0..n).map(|i| sum.get(i)).collect(), (0..n).map(|i| mx.get(i)).collect());
         let (scl, ssd) = (sum.clone(), serde_copy("SumBitTree<i64>", &sum)?);
         let (mcl, msd) = (mx.clone(), serde_copy("MaxBitTree<(u32,u32)>", &mx)?);
+        let (mut scf, mut mcf): (SumBitTree<i64>, MaxBitTree<(u32, u32)>) = (SumBitTree::new(n + 3), MaxBitTree::new(n / 2));
+        scf.set(0, 77);
+        scf.clone_from(&sum);
+        mcf.clone_from(&mx);
         for &(f, v) in &c.later {
             if n > 0 {
                 sum.set(gen::idx(f, n - 1), v as i64 + 1);
                 mx.set(gen::idx(f, n - 1), (5000 + v as u32, 0));
             }
         }
-        for (name, st, mt) in [("clone()", &scl, &mcl), ("serde round trip", &ssd, &msd)] {
+        for (name, st, mt) in [("clone()", &scl, &mcl), ("serde round trip", &ssd, &msd), ("clone_from() into an object built with another configuration", &scf, &mcf)] {
             let (s1, m1): (Vec<i64>, Vec<(u32, u32)>) = ((0..n).map(|i| st.get(i)).collect(), (0..n).map(|i| mt.get(i)).collect());
             ensure!(s1 == s0, "SumBitTree over {:?}: prefix sums of its {} are {:?}, the original had {:?}", c.ints, name, s1, s0);
             ensure!(m1 == m0, "MaxBitTree over {:?}: prefix maxima of its {} are {:?}, the original had {:?}", c.ints, name, m1, m0);
@@ -165,7 +178,13 @@ pub mod c17 {
             bv.set_bit(i as u64, b);
         }
         let rs = RankSelect::new(bv, c.k);
-        let copies = [("clone()", rs.clone()), ("serde round trip", serde_copy("RankSelect", &rs)?)];
+        let mut cf = {
+            let mut other: BitVec<u8> = BitVec::new_fill(true, (n as u64 * 3) % 71 + 1);
+            other.set_bit(0, false);
+            RankSelect::new(other, c.k + 1)
+        };
+        cf.clone_from(&rs);
+        let copies = [("clone()", rs.clone()), ("serde round trip", serde_copy("RankSelect", &rs)?), ("clone_from() into an object built with another configuration", cf)];
         for (name, cp) in &copies {
             for i in 0..=n as u64 + 1 {
                 ensure!(cp.rank_1(i) == rs.rank_1(i) && cp.rank_0(i) == rs.rank_0(i), "RankSelect over {:?} k={}: {} answers rank_1({}) = {:?}, rank_0 = {:?}; the original {:?} / {:?}", c.bits, c.k, name, i, cp.rank_1(i), cp.rank_0(i), rs.rank_1(i), rs.rank_0(i));
@@ -175,7 +194,9 @@ pub mod c17 {
         let text: &[u8] = &c.text;
         if !text.is_empty() {
             let wm = WaveletMatrix::new(text);
-            let copies = [("clone()", wm.clone()), ("serde round trip", serde_copy("WaveletMatrix", &wm)?)];
+            let mut cf = WaveletMatrix::new(b"TTGACN$");
+            cf.clone_from(&wm);
+            let copies = [("clone()", wm.clone()), ("serde round trip", serde_copy("WaveletMatrix", &wm)?), ("clone_from() into an object built with another configuration", cf)];
             for (name, cp) in &copies {
                 for p in 0..text.len() as u64 {
                     for &s in b"ACGTN$" {
@@ -226,7 +247,9 @@ pub mod c04 {
         let b = bwt(&text, &sa);
         let ls = less(&b, &alphabet);
         let occ = Occ::new(&b, c.k, &alphabet);
-        for (name, cp) in [("clone()", occ.clone()), ("serde round trip", serde_copy("Occ", &occ)?)] {
+        let mut cf = Occ::new(&b"TA$CG"[..].to_vec(), c.k % 5 + 2, &alphabet);
+        cf.clone_from(&occ);
+        for (name, cp) in [("clone()", occ.clone()), ("serde round trip", serde_copy("Occ", &occ)?), ("clone_from() into an object built with another configuration", cf)] {
             for r in 0..n {
                 for &a in b"$ACGT" {
                     ensure!(cp.get(&b, r, a) == occ.get(&b, r, a), "Occ (k={}) over the BWT of {:?}: {} answers get({}, {:?}) = {}, the original {}", c.k, lossy(&text), name, r, a as char, cp.get(&b, r, a), occ.get(&b, r, a));
@@ -280,8 +303,16 @@ pub mod c07 {
         }
         arr.index();
         let model: Vec<(i64, i64, usize)> = c.inserts.iter().enumerate().map(|(d, &(s, w))| (s as i64, s as i64 + w as i64, d)).collect();
-        let copies = [("clone()", tree.clone()), ("serde round trip", serde_copy("IntervalTree", &tree)?)];
-        let acopies = [("clone()", arr.clone()), ("serde round trip", serde_copy("ArrayBackedIntervalTree", &arr)?)];
+        let mut tcf: IntervalTree<i64, usize> = IntervalTree::new();
+        let mut acf: ArrayBackedIntervalTree<i64, usize> = ArrayBackedIntervalTree::new();
+        for j in 0..5i64 {
+            tcf.insert(j * 9..j * 9 + 30, 500 + j as usize);
+            acf.insert(j * 9..j * 9 + 30, 500 + j as usize);
+        }
+        tcf.clone_from(&tree);
+        acf.clone_from(&arr);
+        let copies = [("clone()", tree.clone()), ("serde round trip", serde_copy("IntervalTree", &tree)?), ("clone_from() into an object built with another configuration", tcf)];
+        let acopies = [("clone()", arr.clone()), ("serde round trip", serde_copy("ArrayBackedIntervalTree", &arr)?), ("clone_from() into an object built with another configuration", acf)];
         for (k, &(s, w)) in c.later.iter().enumerate() {
             tree.insert(s as i64..s as i64 + w as i64, 1000 + k);
             arr.insert(s as i64..s as i64 + w as i64, 1000 + k);
@@ -356,7 +387,9 @@ pub mod matchers {
         let got: Vec<usize> = km.clone().find_all(t).take(cap).collect();
         ensure!(got == want, "KMP clone(): {}: {:?}, occurrences {:?}", hdr, got, want);
         let bom = BOM::new(p);
-        for (name, cp) in [("clone()", bom.clone()), ("serde round trip", serde_copy("BOM", &bom)?)] {
+        let mut cf = BOM::new(b"zzyzx");
+        cf.clone_from(&bom);
+        for (name, cp) in [("clone()", bom.clone()), ("serde round trip", serde_copy("BOM", &bom)?), ("clone_from() into an object built with another configuration", cf)] {
             let got: Vec<usize> = cp.find_all(t).take(cap).collect();
             ensure!(got == want, "BOM {}: {}: {:?}, occurrences {:?}", name, hdr, got, want);
         }
@@ -402,7 +435,9 @@ pub mod matchers {
         let stops: Vec<&[u8; 3]> = vec![b"bba", b"bab"];
         let f = Finder::new(starts, stops, c.q as usize);
         let orig: Vec<(usize, usize, i8)> = f.find_all(t).take(cap).map(|o| (o.start, o.end, o.offset)).collect();
-        for (name, cp) in [("clone()", f.clone()), ("serde round trip", serde_copy("orf::Finder", &f)?)] {
+        let mut cf = Finder::new(vec![b"bbb"], vec![b"aaa"], 30);
+        cf.clone_from(&f);
+        for (name, cp) in [("clone()", f.clone()), ("serde round trip", serde_copy("orf::Finder", &f)?), ("clone_from() into an object built with another configuration", cf)] {
             let got: Vec<(usize, usize, i8)> = cp.find_all(t).take(cap).map(|o| (o.start, o.end, o.offset)).collect();
             ensure!(got == orig, "orf::Finder {}: text {:?}: {:?}, the original {:?}", name, lossy(t), got, orig);
         }
@@ -420,12 +455,208 @@ pub mod matchers {
     }
 }
 
+
+// ---------------------------------------------------------------------------------------------
+// C05: backward_search is a provided method of the FMIndexable trait; the FMD index implements the trait too
+pub mod c05_impl {
+    use super::*;
+    use bio::alphabets::dna;
+    use bio::data_structures::bwt::{bwt, less, Occ};
+    use bio::data_structures::fmindex::{FMDIndex, FMIndex};
+    use bio::data_structures::suffix_array::suffix_array;
+
+    #[derive(Serialize, Deserialize, Debug, Clone)]
+    pub struct Case {
+        pub seqs: Vec<B>,
+        pub k: u32,
+        pub patterns: Vec<B>,
+    }
+
+    pub fn check(c: &Case) -> R {
+        ensure!(!c.seqs.is_empty() && c.seqs.iter().all(|s| !s.is_empty()) && c.k >= 1 && !c.patterns.is_empty() && c.patterns.iter().all(|p| !p.is_empty()), "harness: empty sequence/pattern");
+        // text = s $ revcomp(s) $ for every sequence
+        let mut text = Vec::new();
+        for s in &c.seqs {
+            text.extend_from_slice(s);
+            text.push(b'$');
+            text.extend(dna::revcomp(&s.0));
+            text.push(b'$');
+        }
+        let alphabet = dna::n_alphabet();
+        let sa = suffix_array(&text);
+        let bw = bwt(&text, &sa);
+        let le = less(&bw, &alphabet);
+        let oc = Occ::new(&bw, c.k, &alphabet);
+        let syms: Vec<u8> = alphabet.symbols.iter().map(|b| b as u8).collect();
+        let pats: Vec<Vec<u8>> = c.patterns.iter().map(|p| p.0.clone()).collect();
+        let fm = FMIndex::new(&bw, &le, &oc);
+        crate::props::c05::check_implementor(&fm, &text, &syms, c.k, &pats).map_err(|e| match e {
+            Stop::Fail(m) => Stop::Fail(format!("FMIndex::backward_search: {}", m)),
+            o => o,
+        })?;
+        let fmd = FMDIndex::from(FMIndex::new(&bw, &le, &oc));
+        crate::props::c05::check_implementor(&fmd, &text, &syms, c.k, &pats).map_err(|e| match e {
+            Stop::Fail(m) => Stop::Fail(format!("FMDIndex (the other implementor of FMIndexable in the crate)::backward_search: {}", m)),
+            o => o,
+        })?;
+        // a user-side implementor: the three required methods by naive counting, backward_search inherited
+        struct Naive {
+            bwt: Vec<u8>,
+        }
+        impl bio::data_structures::fmindex::FMIndexable for Naive {
+            fn occ(&self, r: usize, a: u8) -> usize {
+                self.bwt[..=r].iter().filter(|&&b| b == a).count()
+            }
+            fn less(&self, a: u8) -> usize {
+                self.bwt.iter().filter(|&&b| b < a).count()
+            }
+            fn bwt(&self) -> &bio::data_structures::bwt::BWT {
+                &self.bwt
+            }
+        }
+        let naive = Naive { bwt: bw.clone() };
+        crate::props::c05::check_implementor(&naive, &text, &syms, c.k, &pats).map_err(|e| match e {
+            Stop::Fail(m) => Stop::Fail(format!("backward_search inherited by an implementor of FMIndexable that counts naively: {}", m)),
+            o => o,
+        })?;
+        let occurs = |p: &[u8]| text.windows(p.len()).any(|w| w == p);
+        let mut pass = Pass::new(pats.iter().any(|p| p.len() >= 2));
+        pass.add_if(pats.iter().any(|p| occurs(p)), "pattern occurs (Complete)");
+        pass.add_if(pats.iter().any(|p| !occurs(p) && occurs(&p[p.len() - 1..])), "pattern does not occur, its last symbol does (Partial)");
+        pass.add_if(pats.iter().any(|p| !occurs(&p[p.len() - 1..])), "last symbol absent (Absent)");
+        Ok(pass)
+    }
+
+    pub fn strat(_t: Tier) -> BoxedStrategy<Case> {
+        let sym = || proptest::sample::select(b"ACGT".to_vec());
+        (proptest::collection::vec(proptest::collection::vec(sym(), 1..=12), 1..=2), prop_oneof![1u32..=4, 60u32..=70], proptest::collection::vec(proptest::collection::vec(prop_oneof![8 => sym(), 1 => Just(b'N')], 1..=5), 1..=4))
+            .prop_map(|(seqs, k, patterns)| Case { seqs: seqs.into_iter().map(B).collect(), k, patterns: patterns.into_iter().map(B).collect() })
+            .boxed()
+    }
+}
+
+
+// ---------------------------------------------------------------------------------------------
+// C07, last clause: "query cost stays logarithmic in the number of entries". Cost is observed without a
+// clock: the tree is keyed by a type whose `Ord` counts comparisons. An augmented AVL tree answers a query
+// with h hits among n entries in O((h + 1) log n) key comparisons; a query that visits a number of nodes
+// proportional to n does not.
+pub mod c07_cost {
+    use super::*;
+    use bio::data_structures::interval_tree::IntervalTree;
+    use std::cell::Cell;
+    use std::cmp::Ordering;
+
+    thread_local! {
+        static CMP: Cell<u64> = Cell::new(0);
+    }
+
+    #[derive(Clone, Debug, PartialEq, Eq)]
+    pub struct CK(pub i64);
+    impl PartialOrd for CK {
+        fn partial_cmp(&self, o: &CK) -> Option<Ordering> {
+            Some(self.cmp(o))
+        }
+    }
+    impl Ord for CK {
+        fn cmp(&self, o: &CK) -> Ordering {
+            CMP.with(|c| c.set(c.get() + 1));
+            self.0.cmp(&o.0)
+        }
+    }
+
+    #[derive(Serialize, Deserialize, Debug, Clone)]
+    pub struct Case {
+        pub n: usize,
+        /// 0: unit intervals i..i+1 ascending; 1: descending; 2: random starts, widths 1..=8; 3: nested
+        /// (i..2n-i); 4: all equal
+        pub shape: u8,
+        pub seed: u64,
+        /// (start fraction, width)
+        pub queries: Vec<(u16, u16)>,
+    }
+
+    /// comparisons allowed per (hit + 1) and per level of a balanced tree; the unchanged code needs < 6
+    /// (measured over 140,000 queries of the generator below: never above 6), a query that walks the whole tree needs n / log n
+    pub const PER_HIT_LEVEL: u64 = 24;
+
+    pub fn check(c: &Case) -> R {
+        let n = c.n;
+        ensure!(n >= 64, "harness: n={}", n);
+        let mut g = crate::oracles::prng::Sm::new(c.seed);
+        let mut ivs: Vec<(i64, i64)> = Vec::with_capacity(n);
+        for i in 0..n as i64 {
+            ivs.push(match c.shape % 5 {
+                0 => (i, i + 1),
+                1 => (n as i64 - i, n as i64 - i + 1),
+                2 => {
+                    let s = g.below(n as u64 * 4) as i64;
+                    (s, s + 1 + g.below(8) as i64)
+                }
+                3 => (i, 2 * n as i64 - i),
+                _ => (7, 9),
+            });
+        }
+        let mut tree: IntervalTree<CK, usize> = IntervalTree::new();
+        for (d, &(s, e)) in ivs.iter().enumerate() {
+            tree.insert(CK(s)..CK(e), d);
+        }
+        let span = ivs.iter().map(|x| x.1).max().unwrap() + 2;
+        let levels = (usize::BITS - n.leading_zeros()) as u64 + 1; // floor(log2 n) + 2
+        let mut worst = 0f64;
+        let mut pass = Pass::new(true);
+        for &(f, w) in &c.queries {
+            let qs = gen::idx(f, span as usize) as i64;
+            let qe = qs + 1 + w as i64 % 16;
+            let want = ivs.iter().filter(|x| x.0 < qe && qs < x.1).count();
+            CMP.with(|c| c.set(0));
+            let got = tree.find(CK(qs)..CK(qe)).take(n + 2).count();
+            let cmps = CMP.with(|c| c.get());
+            ensure!(got == want, "IntervalTree over {} intervals (shape {}): query {}..{} finds {} entries, {} overlap", n, c.shape, qs, qe, got, want);
+            let bound = PER_HIT_LEVEL * (want as u64 + 1) * levels;
+            ensure!(
+                cmps <= bound,
+                "IntervalTree over {} intervals (shape {}, seed {}): the query {}..{} with {} hits took {} key comparisons; a balanced augmented tree needs O((hits + 1) log n), allowed here {} = {} x (hits + 1) x {} levels",
+                n, c.shape, c.seed, qs, qe, want, cmps, bound, PER_HIT_LEVEL, levels
+            );
+            worst = worst.max(cmps as f64 / ((want as u64 + 1) * levels) as f64);
+            pass.add_if(want == 0, "query without hits");
+            pass.add_if(want >= 1 && want <= 8, "query with 1..8 hits");
+            pass.add_if(qs < span / 16, "query at the low end of the key range");
+        }
+        // find_mut takes the same route
+        CMP.with(|c| c.set(0));
+        let got = tree.find_mut(CK(0)..CK(1)).take(n + 2).count();
+        let cmps = CMP.with(|c| c.get());
+        let want = ivs.iter().filter(|x| x.0 < 1 && 0 < x.1).count();
+        ensure!(got == want && cmps <= PER_HIT_LEVEL * (want as u64 + 1) * levels, "IntervalTree over {} intervals (shape {}): find_mut(0..1) with {} hits (found {}) took {} key comparisons, allowed {}", n, c.shape, want, got, cmps, PER_HIT_LEVEL * (want as u64 + 1) * levels);
+        pass.add_if(worst > 3.0, "more than 3 comparisons per (hit + 1) and level");
+        pass.add_if(worst > 6.0, "more than 6 comparisons per (hit + 1) and level");
+        pass.add_if(worst > 12.0, "more than 12 comparisons per (hit + 1) and level");
+        pass.add_if(n >= 1024, "n >= 1024");
+        if std::env::var("VERIF_C07_COST_TRACE").is_ok() {
+            eprintln!("c07-cost n={} shape={} worst ratio {:.2}", n, c.shape, worst);
+        }
+        Ok(pass)
+    }
+
+    pub fn strat(_t: Tier) -> BoxedStrategy<Case> {
+        (prop_oneof![Just(64usize), Just(255), Just(256), Just(1000), Just(1024), Just(4096), 64usize..=3000], 0u8..5, any::<u64>(), proptest::collection::vec((prop_oneof![2 => Just(0u16), 1 => 0u16..=4000, 3 => any::<u16>()], any::<u16>()), 1..=6))
+            .prop_map(|(n, shape, seed, queries)| Case { n, shape, seed, queries })
+            .boxed()
+    }
+}
+
 pub fn extend(props: &mut [Property]) {
     for p in props.iter_mut() {
         match p.id {
             "C03" => p.subs.push(Box::new(PropSub { name: "C03/copies", quick: 20_000, thorough: 400_000, shards_quick: 8, shards_thorough: 16, strat: c04::strat, check: c04::check, must_reach: &["sampling rate > 1"], watch: true })),
             "C04" => p.subs.push(Box::new(PropSub { name: "C04/copies", quick: 20_000, thorough: 400_000, shards_quick: 8, shards_thorough: 16, strat: c04::strat, check: c04::check, must_reach: &["Occ rate > 1"], watch: true })),
-            "C07" => p.subs.push(Box::new(PropSub { name: "C07/copies", quick: 40_000, thorough: 800_000, shards_quick: 8, shards_thorough: 16, strat: c07::strat, check: c07::check, must_reach: &["original changed after the copies were taken"], watch: true })),
+            "C05" => p.subs.push(Box::new(PropSub { name: "C05/other-implementors", quick: 60_000, thorough: 1_200_000, shards_quick: 8, shards_thorough: 16, strat: c05_impl::strat, check: c05_impl::check, must_reach: &["pattern occurs (Complete)", "pattern does not occur, its last symbol does (Partial)", "last symbol absent (Absent)"], watch: true })),
+            "C07" => {
+                p.subs.push(Box::new(PropSub { name: "C07/query-cost", quick: 2_000, thorough: 40_000, shards_quick: 8, shards_thorough: 16, strat: c07_cost::strat, check: c07_cost::check, must_reach: &["query without hits", "query at the low end of the key range", "n >= 1024"], watch: true }));
+                p.subs.push(Box::new(PropSub { name: "C07/copies", quick: 40_000, thorough: 800_000, shards_quick: 8, shards_thorough: 16, strat: c07::strat, check: c07::check, must_reach: &["original changed after the copies were taken"], watch: true }));
+            }
             "C08" => p.subs.push(Box::new(PropSub { name: "C08/copies", quick: 40_000, thorough: 800_000, shards_quick: 8, shards_thorough: 16, strat: matchers::strat, check: matchers::check, must_reach: &[], watch: true })),
             "C10" => p.subs.push(Box::new(PropSub { name: "C10/copies", quick: 40_000, thorough: 800_000, shards_quick: 8, shards_thorough: 16, strat: matchers::strat, check: matchers::check, must_reach: &["pattern longer than one u8 block"], watch: true })),
             "C17" => p.subs.push(Box::new(PropSub { name: "C17/copies", quick: 20_000, thorough: 400_000, shards_quick: 8, shards_thorough: 16, strat: c17::strat, check: c17::check, must_reach: &["bit vector spans several superblocks", "wavelet matrix compared"], watch: true })),
